@@ -402,8 +402,272 @@ def diag(ctx, prog, r):
             r.viol("D:Error::" + v, "configuration error Error::%s has no construction site left: the condition it reported is no longer detected" % v)
 
 
+# ---------------------------------------------------------------------------------------------- evaluation (R0)
+
+PL = "leptos_i18n_parser/src/parse_locales/locale.rs"
+
+
+def r0_config(ctx):
+    """abstract evaluation (rules/absint.py) of ConfigFile::new, CfgFileVisitor::visit_map and LocalesOrNamespaces::new
+    (with Namespace::new / find_file) on all small configurations; the expected outcome is taken from the statement"""
+    import itertools
+    from rules import absint
+    from rules.absint import AEval, A, B, C, CF, L, T
+    r = Rule("C19.R0", "small configurations: normalisation, rejections and the files opened are what the statement says",
+             "`the default locale is always part of the locale list and comes first; duplicates, unknown / default `inherits`, "
+             "missing required fields are rejected; unknown fields and the rest of Cargo.toml are ignored; locales-dir, namespaces "
+             "and file extensions determine exactly which files are read`", floor=3)
+    ast = ctx.ast
+    S = lambda x: ("str", x)  # noqa: E731
+    new = ast.fn(CFG, "new", impl_self="ConfigFile")
+    vm = ast.fn(CFG, "visit_map", impl_self="CfgFileVisitor")
+    vs = ast.fn(CFG, "visit_str", impl_self="FieldVisitor")
+    lon = ast.fn(PL, "new", impl_self="LocalesOrNamespaces")
+    nsn = ast.fn(PL, "new", impl_self="Namespace")
+    if None in (new, vm, vs, lon, nsn):
+        r.missing("ConfigFile::new / visit_map / FieldVisitor::visit_str / LocalesOrNamespaces::new / Namespace::new")
+        return r, False, "anchor missing"
+    funcs = absint.file_funcs(ast, CFG, impl_self="ConfigFile")
+    HDR = "[package.metadata.leptos-i18n]"
+
+    # ---- E1: ConfigFile::new around the deserialised value
+    def run_new(manifest, cfgv):
+        seen = {}
+
+        def from_str(a):
+            v = a[0]
+            seen["text"] = "".join(chr(c[1]) for c in v[1]) if v[0] == "list" and all(c[0] == "char" for c in v[1]) else (v[1] if v[0] == "str" else None)
+            return C("Ok", cfgv)
+        rd = lambda a: C("Ok", S(manifest)) if manifest is not None else C("Err", A("io"))  # noqa: E731
+        ev = AEval(funcs=funcs)
+        ev.path_builtins = {"std::fs::read_to_string": rd, "fs::read_to_string": rd, "read_to_string": rd, "toml::de::from_str": from_str, "toml::from_str": from_str}
+        return ev.run_fn(new, [L(S("<root>"))]), seen
+
+    def cfg_value(locs, nss):
+        return CF("ConfigFile", default=S("en"), locales=L(*[S(x) for x in locs]), name_spaces=C("None") if nss is None else C("Some", L(*[S(x) for x in nss])),
+                  locales_dir=S("locales"), translations_uri=C("None"), extensions=L())
+
+    def dups(xs):
+        return sorted({x for x in xs if xs.count(x) > 1})
+    n1 = 0
+    for locs in ([], ["en"], ["fr"], ["fr", "en"], ["en", "fr"], ["fr", "de", "en"], ["fr", "fr"], ["en", "en"], ["fr", "en", "en"], ["de", "fr", "de", "fr"]):
+        for nss in (None, [], ["a"], ["a", "b"], ["a", "a"], ["b", "a", "b"]):
+            got, seen = run_new("[package]\nname = \"x\"\n\n" + HDR + "\ndefault = \"en\"\n[other]\nk = 1\n", cfg_value(locs, nss))
+            if isinstance(got, str):
+                return r, False, got
+            n1 += 1
+            full = locs if "en" in locs else locs + ["en"]
+            case = "default = en, locales = %s, namespaces = %s" % (locs, nss)
+            def same_err(g, w):
+                # the payload is a set: compare without order
+                return g[0] == "ctor" and g[1] == "Err" and g[2] and g[2][0][0] == "ctor" and g[2][0][1] == w[2][0][1] and g[2][0][2] and g[2][0][2][0][0] == "list" \
+                    and sorted(g[2][0][2][0][1]) == sorted(w[2][0][2][0][1])
+            if dups(full):
+                want = C("Err", C("DuplicateLocalesInConfig", L(*[S(x) for x in dups(full)])))
+                if not same_err(got, want):
+                    r.viol("R0:ConfigFile::new#duplicate-locales", "%s: %s, expected %s" % (case, absint.fmt(got), absint.fmt(want)), file=CFG, line=new.line)
+                continue
+            if nss is not None and dups(nss):
+                want = C("Err", C("DuplicateNamespacesInConfig", L(*[S(x) for x in dups(nss)])))
+                if not same_err(got, want):
+                    r.viol("R0:ConfigFile::new#duplicate-namespaces", "%s: %s, expected %s" % (case, absint.fmt(got), absint.fmt(want)), file=CFG, line=new.line)
+                continue
+            ok = got[0] == "ctor" and got[1] == "Ok" and got[2] and got[2][0][0] == "ctor"
+            out = [x[1] for x in absint.fields_of(got[2][0]).get("locales", L())[1]] if ok else None
+            if not ok or not out or out[0] != "en" or sorted(out) != sorted(full):
+                r.viol("R0:ConfigFile::new#default-first", "%s: the locale list becomes %s, expected the default first followed by the other listed locales (%s)" % (case, out if ok else absint.fmt(got), sorted(full)), file=CFG, line=new.line)
+            elif ok and absint.fields_of(got[2][0]).get("name_spaces") != absint.fields_of(cfg_value(locs, nss)).get("name_spaces"):
+                r.viol("R0:ConfigFile::new#namespaces-kept", "%s: namespaces become %s" % (case, absint.fmt(absint.fields_of(got[2][0]).get("name_spaces"))), file=CFG, line=new.line)
+    got, seen = run_new("[package]\nname = \"x\"\n\n" + HDR + "\ndefault = \"en\"\n", cfg_value(["en"], None))
+    if seen.get("text") != "\n\n\n" + "\ndefault = \"en\"\n":
+        r.viol("R0:ConfigFile::new#section", "the text handed to the TOML parser is %r: expected the i18n section only, preceded by one newline per manifest line before it" % seen.get("text"), file=CFG, line=new.line)
+    got, _s = run_new("[package]\nname = \"x\"\n", cfg_value(["en"], None))
+    if got != C("Err", C("ConfigNotPresent")):
+        r.viol("R0:ConfigFile::new#no-section", "a manifest without the section gives %s" % (got if isinstance(got, str) else absint.fmt(got)), file=CFG, line=new.line)
+    got, _s = run_new(None, cfg_value(["en"], None))
+    if not (not isinstance(got, str) and got[0] == "ctor" and got[1] == "Err" and got[2] and got[2][0][1] == "ManifestNotFound"):
+        r.viol("R0:ConfigFile::new#no-manifest", "an unreadable manifest gives %s" % (got if isinstance(got, str) else absint.fmt(got)), file=CFG, line=new.line)
+    if not [v for v in r.violations if "ConfigFile::new" in v.key]:
+        r.inst("ConfigFile::new", "%d (locales, namespaces) lists: default first and present once, duplicates rejected (locales before namespaces), section isolated, missing section / manifest reported" % n1)
+
+    # ---- E2: the serde visitor
+    consts = {}
+    for cname in ("DEFAULT", "LOCALES", "NAMESPACES", "LOCALES_DIR", "TRANSLATIONS_URI", "EXTENSIONS"):
+        c = ast.const(CFG, cname, "Field")
+        if c is not None:
+            consts["Field::" + cname] = S(c["expr"].get("str"))
+    allf = absint.file_funcs(ast, CFG, impl_self="CfgFileVisitor")
+
+    def run_vm(entries):
+        m = CF("Map", entries=L(*[T(k, v) for k, v in entries]), pending=C("None"))
+
+        def next_key(rv, a):
+            ents = absint.fields_of(rv)["entries"][1]
+            if not ents:
+                return rv, C("Ok", C("None"))
+            k, v = ents[0][1]
+            return CF("Map", entries=L(*ents[1:]), pending=C("Some", v)), C("Ok", C("Some", k))
+
+        def next_value(rv, a):
+            fs = absint.fields_of(rv)
+            if fs["pending"][1] != "Some":
+                raise absint.Unknown("next_value without a pending key")
+            return CF("Map", entries=fs["entries"], pending=C("None")), C("Ok", fs["pending"][2][0])
+        ev = AEval(funcs=allf, consts=consts)
+        ev.mut_builtins = {"next_key": next_key, "next_value": next_value, "replace": lambda rv, a: (C("Some", a[0]), rv)}
+        ev.path_builtins = {}
+        for pre in ("serde::de::Error::", "de::Error::", "Error::", "A::Error::", "<A::Error as serde::de::Error>::"):
+            ev.path_builtins[pre + "missing_field"] = lambda a: C("missing_field", a[0])
+            ev.path_builtins[pre + "duplicate_field"] = lambda a: C("duplicate_field", a[0])
+            ev.path_builtins[pre + "custom"] = lambda a: C("custom", a[0])
+        return ev.run_fn(vm, [A("visitor"), m])
+    Fd = lambda n: C(n)  # noqa: E731
+    n2 = 0
+
+    def expect(label, entries, pred, want_text):
+        nonlocal n2
+        got = run_vm(entries)
+        if isinstance(got, str):
+            raise absint.Unknown(got)
+        n2 += 1
+        if not pred(got):
+            r.viol("R0:visit_map#" + label, "%s: %s, expected %s" % (label, absint.fmt(got), want_text), file=CFG, line=vm.line)
+
+    def is_err(kind, arg=None):
+        return lambda g: g[0] == "ctor" and g[1] == "Err" and g[2] and g[2][0][0] == "ctor" and g[2][0][1] == kind and (arg is None or (g[2][0][2] and g[2][0][2][0] == S(arg)))
+
+    def is_ok(**want):
+        def f(g):
+            if not (g[0] == "ctor" and g[1] == "Ok" and g[2] and g[2][0][0] == "ctor"):
+                return False
+            fs = absint.fields_of(g[2][0])
+            return all(fs.get(k) == v or (v == L() and fs.get(k) == absint.DEFAULT) for k, v in want.items())
+        return f
+    base = [(Fd("Default"), S("en")), (Fd("Locales"), L(S("en"), S("fr"), S("de")))]
+    try:
+        expect("accepts", base, is_ok(default=S("en"), locales=L(S("en"), S("fr"), S("de")), locales_dir=S("locales"), name_spaces=C("None"), extensions=L()), "Ok with locales-dir defaulting to `locales`")
+        expect("unknown-fields-ignored", [(Fd("Unknown"), A("x"))] + base[:1] + [(Fd("Unknown"), A("y"))] + base[1:] + [(Fd("Unknown"), A("z"))],
+               is_ok(default=S("en"), locales=L(S("en"), S("fr"), S("de"))), "Ok: unknown fields are skipped")
+        expect("optional-fields", base + [(Fd("LocalesDir"), S("i18n")), (Fd("Namespaces"), L(S("a"))), (Fd("TranslationsUri"), S("u"))],
+               is_ok(locales_dir=S("i18n"), name_spaces=C("Some", L(S("a"))), translations_uri=C("Some", S("u"))), "Ok carrying locales-dir, namespaces, translations-path")
+        expect("missing-default", base[1:], is_err("missing_field", "default"), "Err(missing_field(default))")
+        expect("missing-locales", base[:1], is_err("missing_field", "locales"), "Err(missing_field(locales))")
+        for fld, val in (("Default", S("fr")), ("Locales", L(S("fr"))), ("Namespaces", L(S("a"))), ("LocalesDir", S("d")), ("Extensions", L())):
+            first = [(Fd(fld), val)] if fld not in ("Default", "Locales") else []
+            expect("duplicate-" + fld, base + first + [(Fd(fld), val)], is_err("duplicate_field"), "Err(duplicate_field)")
+        expect("inherits-ok", base + [(Fd("Extensions"), L(T(S("fr"), S("de")), T(S("de"), S("en"))))], is_ok(extensions=L(T(S("fr"), S("de")), T(S("de"), S("en")))), "Ok")
+        expect("inherits-default-unlisted", [(Fd("Default"), S("en")), (Fd("Locales"), L(S("fr"))), (Fd("Extensions"), L(T(S("fr"), S("en"))))],
+               is_ok(extensions=L(T(S("fr"), S("en")))), "Ok: the default locale is a known locale even when not listed")
+        expect("inherits-unknown-target", base + [(Fd("Extensions"), L(T(S("fr"), S("it"))))], is_err("custom"), "Err: unknown locale")
+        expect("inherits-unknown-source", base + [(Fd("Extensions"), L(T(S("it"), S("fr"))))], is_err("custom"), "Err: unknown locale")
+        expect("inherits-default", base + [(Fd("Extensions"), L(T(S("en"), S("fr"))))], is_err("custom"), "Err: the default locale cannot inherit")
+        expect("inherits-default-unlisted-source", [(Fd("Default"), S("en")), (Fd("Locales"), L(S("fr"))), (Fd("Extensions"), L(T(S("en"), S("fr"))))], is_err("custom"), "Err: the default locale cannot inherit")
+    except absint.Unknown as u:
+        return r, False, str(u)
+    names = {"default": "Default", "locales": "Locales", "namespaces": "Namespaces", "locales-dir": "LocalesDir", "translations-path": "TranslationsUri", "inherits": "Extensions",
+             "Default": "Unknown", "locale": "Unknown", "": "Unknown", "locales_dir": "Unknown", "name_spaces": "Unknown"}
+    for text, var in names.items():
+        ev = AEval(funcs={}, consts=dict(consts, **{"Field::FIELDS": L()}))
+        for pre in ("serde::de::Error::", "de::Error::", "Error::", "E::"):
+            for nm in ("unknown_field", "custom", "invalid_value", "unknown_variant"):
+                ev.path_builtins[pre + nm] = lambda a, nm=nm: C(nm, *a[:1])
+        got = ev.run_fn(vs, [A("visitor"), S(text)])
+        if isinstance(got, str):
+            return r, False, got
+        n2 += 1
+        if got != C("Ok", C(var)):
+            r.viol("R0:FieldVisitor#" + (text or "empty"), "the configuration key %r is read as %s, expected Field::%s" % (text, absint.fmt(got), var), file=CFG, line=vs.line)
+    if not [v for v in r.violations if "visit_map" in v.key or "FieldVisitor" in v.key]:
+        r.inst("CfgFileVisitor::visit_map", "%d field sequences / names: required fields, duplicates, unknown fields skipped, inherits validated against the locale list including the default" % n2)
+
+    # ---- E3: which files are opened
+    lf = absint.file_funcs(ast, PL, impl_self="LocalesOrNamespaces")
+    K = lambda n: CF("Key", name=S(n))  # noqa: E731
+
+    def run_files(cfgv, exts, fs):
+        log = []
+
+        def openf(a):
+            pth = "/".join(x[1] for x in a[0][1])
+            log.append(("open", pth))
+            return C("Ok", A("file:" + pth)) if pth in fs else C("Err", A("io:" + pth))
+
+        def locale_new(a):
+            log.append(("parse", a[0], absint.fields_of(a[2]).get("name") if a[2][0] == "ctor" else a[2], a[3]))
+            return C("Ok", A("locale"))
+
+        def set_ext(rv, a):
+            comps = list(rv[1])
+            last = comps[-1][1]
+            comps[-1] = S((last.rsplit(".", 1)[0] if "." in last else last) + "." + a[0][1])
+            return L(*comps), B(True)
+        f2 = dict(lf)
+        f2["new"] = nsn
+        ev = AEval(funcs=f2, consts={"FILE_EXTS": L(*[S(x) for x in exts])})
+        ev.mut_builtins = {"set_extension": set_ext}
+        ev.path_builtins = {"File::open": openf, "std::fs::File::open": openf, "fs::File::open": openf, "Locale::new": locale_new}
+        ev.cfg = lambda t: True
+        return ev.run_fn(lon, [L(S("<root>")), cfgv, A("fkp"), A("warnings"), L()]), log
+    n3 = 0
+    for ldir in ("locales", "i18n/locales", "../shared"):
+        for nss in (None, ["common", "home"]):
+            for exts in (["json"], ["yaml", "yml"]):
+                locs = ["en", "fr", "de"]
+                cfgv = CF("ConfigFile", default=K("en"), locales=L(*[K(x) for x in locs]), name_spaces=C("None") if nss is None else C("Some", L(*[K(x) for x in nss])),
+                          locales_dir=S(ldir), translations_uri=C("None"), extensions=L())
+                stems = ["<root>/%s/%s" % (ldir, l) for l in locs] if nss is None else ["<root>/%s/%s/%s" % (ldir, l, n) for n in nss for l in locs]
+                # every file exists with the LAST extension only: all extensions are probed in order, the existing one is parsed
+                fs = {st + "." + exts[-1] for st in stems}
+                got, log = run_files(cfgv, exts, fs)
+                if isinstance(got, str):
+                    return r, False, got
+                n3 += 1
+                want = []
+                for st in stems:
+                    for x in exts:
+                        want.append(("open", st + "." + x))
+                    want.append(("parsed", st + "." + exts[-1]))
+                have = [(k, x[0]) if k == "open" else ("parsed", x[0][1][5:]) for (k, *x) in log]
+                case = "locales-dir = %r, namespaces = %s, extensions %s" % (ldir, nss, exts)
+                if not (got[0] == "ctor" and got[1] == "Ok") or have != want:
+                    r.viol("R0:files#which", "%s: the files opened / parsed are %s (result %s); expected %s" % (case, have[:6], absint.fmt(got)[:60], want[:6]), file=PL, line=lon.line)
+                    continue
+                whom = [(absint.fmt(x[1]), absint.fmt(x[2])) for (k, *x) in log if k == "parse"]
+                wantw = [(l, "None") for l in locs] if nss is None else [(l, "Some(Key(name: %s))" % n) for n in nss for l in locs]
+                if whom != wantw:
+                    r.viol("R0:files#owner", "%s: files are parsed as (locale, namespace) %s, expected %s" % (case, whom[:4], wantw[:4]), file=PL, line=lon.line)
+                # a missing file is an error naming every attempt
+                miss = sorted(fs)[len(fs) // 2]
+                got2, log2 = run_files(cfgv, exts, fs - {miss})
+                if isinstance(got2, str):
+                    return r, False, got2
+                if not (got2[0] == "ctor" and got2[1] == "Err" and got2[2] and got2[2][0][0] == "ctor" and got2[2][0][1] == "LocaleFileNotFound"):
+                    r.viol("R0:files#missing", "%s with %s missing: %s, expected Err(LocaleFileNotFound)" % (case, miss, absint.fmt(got2)[:80]), file=PL, line=lon.line)
+    if not [v for v in r.violations if "files#" in v.key]:
+        r.inst("LocalesOrNamespaces::new", "%d layouts: <manifest>/<locales-dir>/<locale>[/<namespace>].<ext>, extensions probed in order, one file per (locale, namespace), a missing file is LocaleFileNotFound" % n3)
+    return r, True, None
+
+
 def run(ctx):
     prog = ctx.mir("main")
+    r0, ok, why = r0_config(ctx)
+    rd = Rule("C19.D", "configuration diagnostics are still produced",
+              "a validation that was deleted leaves its error variant without construction site", floor=8)
+    diag(ctx, prog, rd)
+    rk = Rule("C19.K", "configuration keys are the documented ones", "the keys of [package.metadata.leptos-i18n] as the book lists them", floor=6)
+    want = {"DEFAULT": "default", "LOCALES": "locales", "NAMESPACES": "namespaces", "LOCALES_DIR": "locales-dir",
+            "TRANSLATIONS_URI": "translations-path", "EXTENSIONS": "inherits"}
+    for cname, val in want.items():
+        c = ctx.ast.const(CFG, cname, "Field")
+        if c is None:
+            rk.missing("Field::" + cname)
+        elif c["expr"].get("str") != val:
+            rk.viol("K:Field::" + cname, "configuration key is %r, documented as %r" % (c["expr"].get("str"), val), file=CFG, line=c["line"])
+        else:
+            rk.inst("Field::" + cname, "= %r" % val)
+    if ok:
+        return [r0, rk, rd]
+    # a construct outside rules/absint.py: fall back to the structural clauses on the MIR of the same functions
     r1 = Rule("C19.R1", "configuration validation dominates acceptance",
               "if a success return of ConfigFile::new / visit_map is reachable without a validation step, a configuration "
               "the documentation says is rejected (duplicates, unknown inherits, default inheriting, missing fields) or "
@@ -415,10 +679,11 @@ def run(ctx):
               "the PathBuf is shared across locales and namespaces; an unbalanced push/pop or a different component order "
               "makes later locales read from the wrong place", floor=7)
     r2_paths(ctx, prog, r2)
-    rd = Rule("C19.D", "configuration diagnostics are still produced",
-              "a validation that was deleted leaves its error variant without construction site", floor=8)
-    diag(ctx, prog, rd)
-    return [r1, r2, rd]
+    if not r0.violations:
+        r0.instances[:] = []
+        r0.inst("evaluation not available", "fallback to structural rules R1/R2: %s" % str(why)[:160])
+        r0.floor = 1
+    return [r0, r1, r2, rk, rd]
 
 
 MANIFEST_ENTRY = {
